@@ -119,7 +119,7 @@ var specs = map[string]propSpec{
 	},
 	"C05": {
 		Units: []unitSpec{
-			{Name: "rapid-goroutines", Test: "TestC05Rapid", Rapid: true, Race: true, QuickChecks: 400, ThoroughChecks: 6000, QuickShards: 4, ThoroughShards: 10},
+			{Name: "rapid-goroutines", Test: "TestC05Rapid", Rapid: true, Race: true, QuickChecks: 600, ThoroughChecks: 8000, QuickShards: 4, ThoroughShards: 12},
 		},
 		Assumptions: append([]string{"schedules are sampled, not enumerated: the harness owns overlap (start barrier, repetitions) and the Go race detector flags unsynchronised access pairs on the schedules that occurred; a race needing a window the stress did not hit can be missed", "expected values are the engine's own sequential results on a freshly compiled expression"}, commonAssumptions...),
 	},
